@@ -681,6 +681,11 @@ func (c *checker) judge(u *unitCfg, entry string, ex *explorer, native *nativeRu
 				continue
 			}
 			out, err := native.run(entry, w, params, "")
+			// targets whose outcome depends on Go's random map order: the witness
+			// is one of the possible orders, re-run until the native run takes it
+			for try := 0; try < u.NativeRetries && err == nil && !contains(out.events, "cover "+lbl); try++ {
+				out, err = native.run(entry, w, params, "")
+			}
 			c.cosim++
 			if err != nil {
 				c.engineErrors = append(c.engineErrors, fmt.Sprintf("%s/%s: native run for cover %s: %v", u.Name, entry, lbl, err))
